@@ -36,6 +36,7 @@ const MUTATIONS: &[(&str, &str)] = &[
     ("l", "alias wc='wc -c'"), ("l", "unalias wc 2>/dev/null"),
     ("l", "alias grep='grep -i'"), ("l", "alias sed='sed -n'"), ("l", "alias tail='tail -n 1'"), ("l", "unalias grep sed tail 2>/dev/null"),
     ("v", "uid=lower"), ("v", "ppid=77"), ("v", "Lineno=3"),
+    ("v", "BIG=$(head -c 70000 /dev/zero | tr '\\0' x)"), ("u", "unset BIG"),   // beyond the capacity of a pipe: whoever stops reading `declare -p` early kills it
     ("l", "alias a1='echo aliased'"), ("l", "alias a2=\"echo 'quoted alias'\""), ("l", "unalias a1 2>/dev/null"), ("l", "alias a1='echo again'"), ("l", "alias ll='ls -la'"),
     ("o", "set -u"), ("o", "set +u"), ("o", "set -o pipefail"), ("o", "set +o pipefail"), ("o", "set -f"), ("o", "set +f"), ("o", "set -C"), ("o", "set +C"),
     ("s", "shopt -s nullglob"), ("s", "shopt -u nullglob"), ("s", "shopt -s extglob"), ("s", "shopt -s dotglob"), ("s", "shopt -s globstar"), ("s", "shopt -u extglob dotglob"),
@@ -48,6 +49,7 @@ const MUTATIONS: &[(&str, &str)] = &[
 const PROBE: &str = r#"
 echo "--vars"; for __v in code OLDPWD uid ppid Lineno V1 V2 V3 V4 X1 X2 ARR EMPTY MAP NUM LOW UP INH1 INH2 RO IFS UID_MIN SCRUT_TEST_X LINENO_FIRST BASH_SOURCE_DIRS PPIDX; do if declare -p $__v >/dev/null 2>&1; then declare -p $__v | tr '\n' '~'; echo; else echo "$__v unset"; fi; done
 echo "--env"; env | grep -E '^(V1|V2|X1|X2|INH1|INH2|NUM)=' | sort | tr '\n' '~'; echo
+echo "--big ${#BIG}"
 echo "--path"; echo "${PATH##*:}"
 echo "--funs"; for __f in f1 f2 f3 f4 f5; do if declare -F $__f >/dev/null; then declare -f $__f; $__f a 2>&1; else echo "$__f undefined"; fi; done
 echo "--aliases"; alias -p
